@@ -722,6 +722,11 @@ peg::parser! {
             !brace_expr() !stop_condition() "{" {}
 
         // Parses a complete brace expression, with no prefix or suffix.
+        //
+        // N.B. Memoized: this rule is tried both as an alternative and as a negative lookahead
+        // at every `{`, and recurses into itself; without the cache `{{{{...a...}}}}` takes time
+        // exponential in the nesting depth.
+        #[cache]
         pub(crate) rule brace_expr() -> BraceExpression =
             "{" inner:brace_expr_inner() "}" { inner }
 
